@@ -71,3 +71,34 @@ Example reject_examples :
   parse_code il id [49; 32; 47; 47; 32; 99; 10] <> None /\
   (exists e, cscan (fun _ _ => true) (1,1) [34; 36; 123; 97; 34] = inr e).
 Proof. vm_compute. repeat split; try discriminate. eexists; reflexivity. Qed.
+
+(* ---- lifted to WHOLE DOCUMENTS (Proofs/LoadCompiled.v, session 3): in every template that LOADS, every directive
+   attribute (name with the attribute prefix, with a value) of every tag at any depth has a value that is closed by its
+   own quote, splits into literal / code tokens that concatenate back to the value, and every ${} block of it is an
+   expression that was parsed WHOLE (the lexer's tokens are exactly the printed expression followed by blank end-of-
+   statement tokens).  Contrapositive: no loaded template contains a directive value for which the splitter fails or a
+   block the parser rejects.  No attribute position escapes the check (the value-less '=' before '>', the last attribute
+   before '/>', attributes after a bare else, ...): the invariant is proved over every step of the scanner.
+   Observation recorded while proving: the OBJECT of a range header and the names of a with list are literal text of the
+   value, checked when the element is RENDERED (always an error then, never ignored): the LoadCompiled.range_object examples. *)
+From Tpl Require Import Html.Pipeline Html.Manager Proofs.LoadCompiled.
+Theorem load_all_compiled : forall is_space to_lower text_tags void_elements attr_prefix is_letter is_udigit src root,
+  load is_space to_lower text_tags void_elements attr_prefix (Manager.pok is_letter is_udigit) src = inl root ->
+  forall n t a v, In n (PureRenderTree.nodes root) -> n_tok n = Some t \/ n_end n = Some t ->
+  In a (t_attrs t) -> prefixb attr_prefix (a_name a) = true -> a_value a = Some v ->
+  exists cts, attr_ctoks attr_prefix (Manager.pok is_letter is_udigit) a = inl cts /\
+    concat (map c_value cts) = v /\
+    (exists q b, v = q :: b ++ [q] /\ isq q = true /\ ~ In q b) /\
+    (forall c, In c cts -> c_kind c = CodeValue -> parsed_whole is_letter is_udigit (c_value c)).
+Proof. exact LoadCompiled.load_all_compiled. Qed.
+Theorem bad_value_never_loads : forall is_space to_lower text_tags void_elements attr_prefix is_letter is_udigit src root,
+  load is_space to_lower text_tags void_elements attr_prefix (Manager.pok is_letter is_udigit) src = inl root ->
+  forall n t a v, In n (PureRenderTree.nodes root) -> n_tok n = Some t \/ n_end n = Some t ->
+  In a (t_attrs t) -> prefixb attr_prefix (a_name a) = true -> a_value a = Some v ->
+  (forall e, cscan no_compile (a_vstart a) v <> inr e) /\
+  (forall e, cscan (Manager.pok is_letter is_udigit) (a_vstart a) v <> inr e) /\
+  (forall cts c, cscan no_compile (a_vstart a) v = inl cts -> In c cts -> c_kind c = CodeValue ->
+     parse_code is_letter is_udigit (c_value c) <> None).
+Proof. exact LoadCompiled.bad_value_never_loads_tree. Qed.
+Print Assumptions load_all_compiled.
+Print Assumptions bad_value_never_loads.
